@@ -145,6 +145,17 @@ def e1_impl(run, acc, tier):
     if tier == "thorough":
         r3 = vlib.model_check(run, "SodgImpl", cfg_impl("fixed", cap=4, nslots=4, slotsize=3), timeout=3000)
         acc.add_e1("SodgImpl[fixed, 4 ids] refines Sodg", r3)
+        # the real constants (16 member lists of 16, capacity 40) cannot be explored exhaustively: random simulation, invariants only
+        cfg = ("SPECIFICATION ISpec\nCONSTANTS Cap = 40 Labels = {\"a\", \"b\", \"c\"} Vals = {\"x\", \"y\"} MaxN = 2 NSlots = 16 SlotSize = 16 Rules = \"fixed\"\n"
+               "INVARIANT NoPanic\nINVARIANT CounterIsRecount\nINVARIANT TagsMatchLists\nINVARIANT ReservedKept\nINVARIANT OccupiedIsGroups\nINVARIANT NoDuplicateMembers\nCHECK_DEADLOCK FALSE\n")
+        r4 = vlib.tlc(run, "SodgImpl", cfg, workers=4, timeout=1500, extra=["-simulate", "num=300", "-depth", "600", "-seed", str(vlib.seed())])
+        import re as _re
+        m = _re.search(r"The number of states generated: (\d+)", r4["out"])
+        if "violated" in r4["out"] or "Error:" in r4["out"] or not m:
+            raise ToolError("SodgImpl simulation at the real constants failed\n" + r4["out"][-2000:])
+        acc.e1.append({"model": "SodgImpl[fixed, real constants 16x16, capacity 40] random simulation, invariants only", "states_generated": int(m.group(1)),
+                       "result": "no invariant violated"})
+        acc.transitions += int(m.group(1))
 
 
 # ----------------------------------------------------------------------------- E2
@@ -942,6 +953,21 @@ LEVEL = {p: "model_checking" for p in PLANS}
 LEVEL["C09"] = "fault_enumeration"
 LEVEL["C07"] = "exploration"
 
+ASSUME_BY_PROP = {
+    "C07": ["AddressSanitizer (nightly rustc, -Zsanitizer=address) reports every out-of-bounds access, use-after-free and double free it sees; std itself is not instrumented; uninitialised reads are not detected (no MSan build of std is possible offline)",
+            "the histories are sampled by seeded drivers (exploration, not exhaustive); the classification inside/overrun/open comes from the specification's guards (Trace.tla, Overrun)",
+            "debug assertions are on in the harness build (the crate's containers check bounds only then), as the property states"],
+    "C09": ["the images are those of sampled specification states plus recorded real-limit graphs; per image EVERY cut position is tried",
+            "the file is what fs::read returns after save() overwrote a longer image at the same path (no fsync / page-cache effects are modelled)"],
+    "C15": ["TLC and the CommunityModules Json module; the harness's four ways of building a Hex (from_slice, from_vec, Hex::Vector, Hex::Bytes with junk padding) cover the representations a user can obtain",
+            "byte contents are four patterns per length (ramp, all FF, zeros with a leading one, all zero), not all 256^n strings; lengths, indices and ranges are complete up to the stated bounds",
+            "Hex.tla's range semantics is cross-checked against std slices on every vector (a disagreement is a tool error)"],
+    "C16": ["as C15; operands in every pair of representations", "the known finding D6 is matched by the predicate KnownConcatPadding of Hex.tla, nothing else is excused"],
+    "C17": ["TLC; the 11-symbol alphabet stands for its character classes (ASCII letter / digit / sign, 2-, 3- and 4-byte characters, blank, alpha)",
+            "texts the property leaves open (empty, containing a blank, alpha + leading zero, alpha + sign) are not judged"],
+    "C19": ["identical logs across three processes and several configurations are evidence of determinism, not a proof (hash seeds differ per process, not adversarially)",
+            "only call sequences validated by Trace.tla as inside the limits of the smallest configuration are compared"],
+}
 ASSUME_COMMON = [
     "TLC 2 and the CommunityModules Json/IOUtils are correct",
     "the hook verif_snapshot() copies the state out faithfully (read-only, feature `verif`)",
@@ -986,7 +1012,7 @@ def finish(run, prop, tier, acc, wall):
     if not acc.e1 and not acc.e2 and not acc.e3:
         for k in ("e1_tlc_model_checking", "e2_product_spec_to_code", "e3_trace_validation_code_to_spec"):
             cov.pop(k, None)
-    vlib.write_evidence(prop, tier, LEVEL.get(prop, "model_checking"), cov, ASSUME_COMMON, wall, len(viol))
+    vlib.write_evidence(prop, tier, LEVEL.get(prop, "model_checking"), cov, ASSUME_BY_PROP.get(prop, ASSUME_COMMON), wall, len(viol))
     if viol:
         return 1
     print(f"OK property={prop} tier={tier} states={acc.states} transitions={acc.transitions} traces={acc.traces} wall={wall:.1f}s")
